@@ -72,8 +72,15 @@ func c11Histories(thorough bool) []c11Hist {
 		}
 	}
 	hs = append(hs, c11Hist{0, "Prepare-empty-dir", 0})
+	// an identifier so long that only the final file name fits into NAME_MAX, not the temporary one;
+	// a read flag that is changed for the third time (the stored file carries every private header)
+	hs = append(hs, c11Hist{1, "ProcessInbound-longmid", 0}, c11Hist{0, "ProcessInbound-longmid", 1}, c11Hist{1, "SetUnread-third-change", 0}, c11Hist{2, "SetUnread-third-change", 0})
 	return hs
 }
+
+// c11LongMID: 248 characters - "<MID>.b2f" fits into a file name of 255 bytes, the decorated name of
+// the temporary file does not.
+var c11LongMID = "L" + strings.Repeat("A", 247)
 
 var c11Seq int
 
@@ -147,6 +154,23 @@ func (e *c11Env) op(h c11Hist) error {
 	switch h.Op {
 	case "ProcessInbound-new":
 		return e.h.ProcessInbound(c11Msg("NEWIN1", h.Size, false))
+	case "ProcessInbound-longmid":
+		return e.h.ProcessInbound(c11Msg(c11LongMID, h.Size, false))
+	case "SetUnread-third-change":
+		for _, v := range []bool{false, true, false} {
+			msgs, err := e.h.Inbox()
+			if err != nil {
+				return err
+			}
+			for _, m := range msgs {
+				if m.MID() == "INB1" {
+					if err := mailbox.SetUnread(m, v); err != nil {
+						return err
+					}
+				}
+			}
+		}
+		return nil
 	case "ProcessInbound-two":
 		return e.h.ProcessInbound(c11Msg("NEWIN1", 0, false), c11Msg("NEWIN2", 1, false))
 	case "ProcessInbound-existing":
@@ -331,6 +355,10 @@ func c11Run(p c11Plan) (class, detail, tree string, inside bool) {
 		return "", ""
 	}
 	switch p.Hist.Op {
+	case "ProcessInbound-longmid":
+		if c, d := check(c11LongMID, p.Hist.Size); c != "" {
+			return c, d, tree, inside
+		}
 	case "ProcessInbound-new":
 		if c, d := check("NEWIN1", p.Hist.Size); c != "" {
 			return c, d, tree, inside
